@@ -910,7 +910,9 @@ class OpsMixin:
             if name in ("isalnum", "isalpha", "isdigit", "isidentifier", "isnumeric", "islower",
                         "isupper", "isspace", "lower", "upper", "strip", "lstrip", "rstrip",
                         "startswith", "endswith", "split", "replace", "find", "count", "title",
-                        "capitalize", "isascii", "isdecimal", "encode", "rsplit", "partition", "index"):
+                        "capitalize", "isascii", "isdecimal", "encode", "rsplit", "partition", "index",
+                        "removeprefix", "removesuffix", "rpartition", "rfind", "rindex", "zfill", "ljust", "rjust",
+                        "center", "casefold", "swapcase", "splitlines", "expandtabs"):
                 for a in args:
                     if not isinstance(a, (str, int, tuple)) and a is not None:
                         raise Unsupported(f"str.{name} with abstract argument")
